@@ -236,7 +236,7 @@ def r16_3(run):
     run.ob('R16.3', rb, rb.node, 'a new "r" line first emits the previous entry', ok, slot='emit-previous', message='_router_begin does not flush the previous relay first')
     dct = [n for n in walk_unit(rb) if isinstance(n, ast.Assign) and assign_to(n, 'self._relay_attrs') is not None]
     ok = len(dct) == 1 and isinstance(dct[0].value, ast.Call) and dotted(dct[0].value.func) == 'dict' and \
-        dict((k.arg, src(k.value)) for k in dct[0].value.keywords) == {
+        dict((k.arg, norm_src(k.value, dict((nm, 'args') for nm in names_defined_by(rb, lambda v: 'split()' in src(v))))) for k in dct[0].value.keywords) == {
             'nickname': 'args[0]', 'idhash': 'args[1]', 'orhash': 'args[2]', 'modified': "args[3] + ' ' + args[4]", 'ip': 'args[5]', 'orport': 'args[6]', 'dirport': 'args[7]'}
     run.ob('R16.3', rb, rb.node, 'an "r" line starts a fresh attribute set with the fields in dir-spec order', ok, slot='r-fields', message='_router_begin builds %s' % (src(dct[0].value)[:80] if dct else None))
     mc = run.idx.find_method(mp, '_maybe_callback_router')
